@@ -281,18 +281,32 @@ def engineTarget (modelName : Str) (engineName : Option Str) : Str × Str :=
    | some e => e
    | none => parts.getLast?.getD [] ++ strEngine)
 
-/-- the importable modules and their attributes (generated by importing the live package) -/
-abbrev ModuleTable := List (Str × List Str)
+/-! Strings in the generated tables are *packed* into one natural number each (code points as digits in base 2^21,
+first character lowest), so that a table of a thousand names is a thousand numerals; computed names are packed before
+the lookup and compared as numbers. -/
+def packBase : Nat := 2097152
+def pack : Str → Nat
+  | [] => 0
+  | c :: cs => c + packBase * pack cs
+def unpackAux : Nat → Nat → Str
+  | 0, _ => []
+  | fuel + 1, n => if n = 0 then [] else (n % packBase) :: unpackAux fuel (n / packBase)
+def unpack (n : Nat) : Str := unpackAux (n.log2 / 21 + 1) n
 
-def lookupStr {β} (k : Str) : List (Str × β) → Option β
+abbrev PStr := Nat
+
+/-- the importable modules and their attributes (generated by importing the live package), packed -/
+abbrev ModuleTable := List (PStr × List PStr)
+
+def lookupP {β} (k : PStr) : List (PStr × β) → Option β
   | [] => none
-  | (k', v) :: rest => if k' = k then some v else lookupStr k rest
+  | (k', v) :: rest => if k' = k then some v else lookupP k rest
 
 /-- `str_to_class(module, attr)` succeeds -/
 def resolves (mods : ModuleTable) (target : Str × Str) : Bool :=
-  match lookupStr target.1 mods with
+  match lookupP (pack target.1) mods with
   | none => false
-  | some attrs => attrs.contains target.2
+  | some attrs => attrs.contains (pack target.2)
 
 /-- operator strings such as `fft2(centered=False)`: the attribute looked up is the text before `(` -/
 def callHead : Str → Str
@@ -302,10 +316,10 @@ def callHead : Str → Str
 /-! ## The tables the checks run against (all generated) -/
 
 structure Tables where
-  symbols : List Str                                   -- Sym -> code points
+  symbols : List PStr                                  -- Sym -> packed code points
   modules : ModuleTable
   /-- config classes: (module, class) -> schema -/
-  schemas : List ((Str × Str) × Ty)
+  schemas : List ((PStr × PStr) × Ty)
   defaultConfig : Ty                                   -- DefaultConfig
   training : Ty
   validation : Ty
@@ -334,12 +348,10 @@ structure Tables where
   modSubsample : Str
   modTransforms : Str
 
-def Tables.strOf (t : Tables) (s : Sym) : Str := t.symbols.getD s []
+def Tables.strOf (t : Tables) (s : Sym) : Str := unpack (t.symbols.getD s 0)
 
 def lookupSchema (t : Tables) (target : Str × Str) : Option Ty :=
-  match t.schemas with
-  | [] => none
-  | _ => (t.schemas.find? fun e => e.1.1 = target.1 ∧ e.1.2 = target.2).map (·.2)
+  (t.schemas.find? fun e => e.1.1 = pack target.1 ∧ e.1.2 = pack target.2).map (·.2)
 
 /-- string payload of a value, as code points (`none` for non-strings) -/
 def Val.strOf? (t : Tables) : Val → Option Str
@@ -408,6 +420,13 @@ def Val.isFalsy : Val → Bool
   | .list [] => true
   | _ => false
 
+/-- `cfg[key] = OmegaConf.merge(cfg[key], file[key])`: a top-level merge of a list into a dataclass node is a
+`ConfigTypeError` (nested, the same mistake is a `ValidationError`) -/
+def mergeTop (ty : Ty) (v : Val) : Res :=
+  match v, ty.core with
+  | .list _, .struct _ _ => .error .configTypeError
+  | _, _ => validate ty v
+
 /-- one iteration of `for key in cfg_from_external_source` -/
 def checkTopKey (t : Tables) (_file : Val) (k : Sym) (v : Val) : Res :=
   if k = t.kModels ∨ k = t.kAdditionalModels then .ok () else
@@ -430,14 +449,14 @@ def checkTopKey (t : Tables) (_file : Val) (k : Sym) (v : Val) : Res :=
       | .ok dty => validate (t.inference.withField t.kDataset dty) v
   else if k = t.kModel then
     match modelSchema t v with
-    | some ty => validate ty v
+    | some ty => mergeTop ty v
     | none => .error .systemExit
   else
     match t.defaultConfig with
     | .struct _ fields =>
       match lookup k fields with
       | none => .error .configKeyError
-      | some (ty, _) => validate ty v
+      | some (ty, _) => mergeTop ty v
     | _ => .error .configKeyError
 
 def checkTopKeys (t : Tables) (file : Val) : List (Sym × Val) → Res
@@ -528,13 +547,14 @@ def transformsCheck (t : Tables) (transforms : Val) : Res :=
 def rawBlockCheck (t : Tables) (block : Val) : Res :=
   match block.get? t.kTransforms with
   | none => .error .configAttributeError
-  | some tr =>
-    match tr.get? t.kMasking with
+  | some (.map kvs) =>
+    match lookup t.kMasking kvs with
     | none => .error .configAttributeError
     | some m =>
       match maskingCheck t m with
-      | .ok () => transformsCheck t tr
+      | .ok () => transformsCheck t (.map kvs)
       | .error e => .error e
+  | some _ => .error .attributeError       -- `.masking` on None / a string / a list
 
 def rawBlocksCheck (t : Tables) : List Val → Res
   | [] => .ok ()
@@ -624,6 +644,23 @@ def defaultsOkFields : Nat → List (Sym × Ty × Val) → Bool
   | _, [] => true
   | fuel, (_, t, d) :: rest => (validate t d).isOk && defaultsOk fuel t && defaultsOkFields fuel rest
 end
+
+/-! ## a model class can be built from its config class -/
+
+def Ty.fieldNames : Ty → List Sym
+  | .struct _ fields => fields.map (·.1)
+  | _ => []
+
+/-- `Model(**cfg)` binds: every config field (but the two names) is a parameter or swallowed by `**kwargs`, and every
+parameter without default is a config field or one of the two operators -/
+def modelAccepts (t : Tables) (cfgFields : List Sym) (sig : List Sym × List Sym × Bool) : Bool :=
+  (cfgFields.all fun f => f = t.kModelName || f = t.kEngineName || sig.2.2 || sig.1.contains f) &&
+  (sig.2.1.all fun p => p = t.kForward || p = t.kBackward || cfgFields.contains p)
+
+def modelInitOk (t : Tables) (e : (PStr × PStr) × (List Sym × List Sym × Bool)) : Bool :=
+  match (t.schemas.find? fun s => s.1.1 = e.1.1 ∧ s.1.2 = e.1.2).map (·.2) with
+  | some ty => modelAccepts t ty.fieldNames e.2
+  | none => false
 
 /-! ## edits (used by the correspondence check to send mutated trees as small messages) -/
 
